@@ -539,6 +539,10 @@ impl<'r> World<'r> {
                 let f = |b: &mut sylvia::cw_std::BlockInfo| {
                     b.height += dh;
                     b.time = b.time.plus_seconds(*dt);
+                    // (now and then the chain is upgraded to a new id on the way)
+                    if dt % 5 == 3 {
+                        b.chain_id = format!("chain-{}", dt % 97);
+                    }
                 };
                 if self.raw_block {
                     on_app!(&self.chain, app => app.update_block(f));
@@ -586,8 +590,8 @@ impl<'r> World<'r> {
     /// digest of every known contract's raw storage, contract info, and all known balances
     pub fn state(&self) -> BTreeMap<String, Value> {
         let mut out = BTreeMap::new();
-        let (bh, bt) = self.block();
-        out.insert("block".to_string(), json!({"height": bh, "time": bt}));
+        let bi = on_app_ref!(&self.chain, app => app.block_info());
+        out.insert("block".to_string(), json!({"height": bi.height, "time": bi.time.nanos().to_string(), "chain_id": bi.chain_id}));
         for c in &self.contracts {
             let a = Addr::unchecked(c.addr.clone());
             let (h, journal, n, info) = on_app_ref!(&self.chain, app => {
